@@ -632,7 +632,7 @@ class EvaluationProblem(BaseProblem):
 
     @staticmethod
     def _convert_array_to_dense(value):
-        return value.todense() if isinstance(value, sparse_classes) else value
+        return value.toarray() if isinstance(value, sparse_classes) else value
 
     def _preprocess_function(
         self,
